@@ -6,8 +6,8 @@ from . import common
 ID = 'C01'
 RULE = ('Hypothesis histories of 1-14 add_interaction / add_interactions_from / add_path / add_star / add_cycle '
         '(method and dn.* forms) / add_node calls on removal-enabled DynGraph and DynDiGraph, each span positioned '
-        'relative to the latest run of its pair (start, inside, end, end+1, gap, identical, before); 12 fixed histories with a pair of '
-        '65-130 runs; thorough adds the exhaustive single-pair sweep. After every call: outcome vs the documented rule and has_interaction over all '
+        'relative to the latest run of its pair (start, inside, end, end+1, gap, identical, before); 14 fixed histories with a pair of '
+        '65-300 runs; thorough adds the exhaustive single-pair sweep. After every call: outcome vs the documented rule and has_interaction over all '
         'ordered node pairs of the universe x every probe instant (range-2..range+2 and far values) vs the model. '
         'non-trivial = some accepted span was adjacent to, overlapping, contained in or identical to an earlier run of '
         'its pair; distinct = hash of the concrete call list.')
@@ -23,10 +23,10 @@ def strategy(tier):
 
 def exhaustive(tier):
     import itertools
-    long_ = gen.very_long_cases()       # every tier: twelve fixed histories with a pair of 65-130 runs
+    long_ = gen.very_long_cases()       # every tier: fourteen fixed histories with a pair of 65-300 runs
     if tier != 'thorough':
-        return {'cases': long_, 'bound': '12 fixed very long histories (one pair with 65-130 runs)'}
-    return {'cases': itertools.chain(long_, common.single_pair_histories()), 'bound': common.SINGLE_PAIR_BOUND + '; 12 fixed very long histories (one pair with 65-130 runs)'}
+        return {'cases': long_, 'bound': '14 fixed very long histories (one pair with 65-300 runs)'}
+    return {'cases': itertools.chain(long_, common.single_pair_histories()), 'bound': common.SINGLE_PAIR_BOUND + '; 14 fixed very long histories (one pair with 65-300 runs)'}
 
 
 def run_case(case, rec):
